@@ -205,6 +205,18 @@ func (e *engine) startNode(name string) error {
 	return nil
 }
 
+// loadRef looks a position up in the committed history. The committing goroutine records a position
+// right after the commit call returns, while a replica can already have received the transaction:
+// a miss is only final once the writer has had time to record it.
+func (e *engine) loadRef(k posKey) (any, bool) {
+	for i := 0; ; i++ {
+		if v, ok := e.refs.Load(k); ok || i >= 300 {
+			return v, ok
+		}
+		time.Sleep(10 * time.Millisecond)
+	}
+}
+
 // onPos runs inside DB.setPos on every node: LiteFS's own linearisation point of a position change.
 func (e *engine) onPos(ns *nodeState, db *litefs.DB) {
 	if db.Name() != e.name {
@@ -219,7 +231,7 @@ func (e *engine) onPos(ns *nodeState, db *litefs.DB) {
 	atomic.AddInt64(&e.res.Applies, 1)
 	e.eval(3)
 	// C01/C06: a replica only ever reports positions some primary committed
-	if _, ok := e.refs.Load(now); !ok && !(now.txid == 0) {
+	if _, ok := e.loadRef(now); !ok && !(now.txid == 0) {
 		e.fail("C01", "C01.position-on-history", "replica-position-not-committed/"+ns.name, map[string]any{"txid": now.txid, "chk": fmt.Sprintf("%016x", now.chk)})
 	}
 	// C06: an incremental file is applied only on exactly the position it extends
@@ -371,6 +383,11 @@ func (e *engine) commit(ns *nodeState, st Step) {
 		err = pg.BeginW(pl)
 		if err == nil && !pg.HasHdr() {
 			err = pg.WHdr(int(e.step.Load()) + 1 + 10*st.G.V)
+		}
+		// every other WAL transaction spills an early version of its last page first, so that the
+		// page appears in two frames of the transaction (SQLite does this when its cache is too small)
+		if err == nil && st.G.V%2 == 1 {
+			err = pg.WFrame(pl.M[len(pl.M)-1], true, false)
 		}
 		for i, q := range pl.M {
 			if err == nil {
@@ -526,6 +543,7 @@ func (e *engine) readOnce(ns *nodeState) {
 	}
 	ps := int64(e.cfg.Layout.PageSize)
 	im := sim.Image{N: uint32(size / ps), Pages: map[uint32][]byte{}}
+	fileN, hdrN := im.N, uint32(0)
 	for r := uint32(1); r <= im.N; r++ {
 		b, err := c.ReadDB(int64(r-1)*ps, int(ps))
 		if err != nil || int64(len(b)) != ps {
@@ -535,7 +553,9 @@ func (e *engine) readOnce(ns *nodeState) {
 	}
 	// SQLite takes the database size from the header, not from the file length
 	if p1 := im.Pages[1]; len(p1) >= 32 {
-		if hn := uint32(p1[28])<<24 | uint32(p1[29])<<16 | uint32(p1[30])<<8 | uint32(p1[31]); hn > 0 && hn < im.N {
+		hn := uint32(p1[28])<<24 | uint32(p1[29])<<16 | uint32(p1[30])<<8 | uint32(p1[31])
+		hdrN = hn
+		if hn > 0 && hn < im.N {
 			for r := hn + 1; r <= im.N; r++ {
 				delete(im.Pages, r)
 			}
@@ -561,7 +581,7 @@ func (e *engine) readOnce(ns *nodeState) {
 	}
 	atomic.AddInt64(&e.res.Reads, 1)
 	e.eval(2)
-	ref, ok := e.refs.Load(keyOf(pos))
+	ref, ok := e.loadRef(keyOf(pos))
 	if !ok {
 		if pos.TXID != 0 {
 			e.fail("C01", "C01.position-on-history", "read-position-not-committed/"+ns.name, map[string]any{"pos": pos.String()})
@@ -570,7 +590,7 @@ func (e *engine) readOnce(ns *nodeState) {
 	}
 	if ok2, why := im.Equal(ref.(sim.Image), e.cfg.Layout.LockPgno()); !ok2 {
 		model, bad := e.cfg.Layout.ModelOf(im)
-		e.fail("C01", "C01.replica-image-is-primary-image", "replica-read-differs/"+ns.name, map[string]any{"pos": pos.String(), "why": why, "seen_model": model, "undecodable": bad, "wal": wal})
+		e.fail("C01", "C01.replica-image-is-primary-image", "replica-read-differs/"+ns.name, map[string]any{"pos": pos.String(), "why": why, "seen_model": model, "undecodable": bad, "wal": wal, "file_pages": fileN, "hdr_pages": hdrN})
 	}
 }
 
